@@ -43,17 +43,23 @@ Definition no_widen_72_full : Prop :=
   forall para para', Forall single_ok para -> realign_lines para = Ok para' ->
     Forall2 (fun p p' => line_width p <= 72 -> line_width p' <= 72) para para'.
 
-(* "LONG_VARNAME_1=\tx" and "A=\t" + 60 characters (DESIGN.md section 8, item 8) *)
+(* "LONG_VARNAME_1=\tx" and "A=\t" + 60 characters (DESIGN.md section 8, item 8):
+   with the patch the second line keeps its tab and stays 68 columns wide *)
 Definition w72_long : parts :=
   mkParts [] [76;79;78;71;95;86;65;82;78;65;77;69;95;49;61]%N [9]%N [120]%N [] [].
-Definition w72_value : str := repeat 118%N 60.
-Definition w72_a : parts := mkParts [] [65;61]%N [9]%N w72_value [] [].
-Definition w72_para : list parts := [w72_long; w72_a].
-Definition w72_after : list parts := [w72_long; set_sbv w72_a [9; 9]%N].
+Definition w72_a : parts := mkParts [] [65;61]%N [9]%N (repeat 118%N 60) [] [].
+Lemma w72_repaired : realign_lines [w72_long; w72_a] = Ok [w72_long; w72_a].
+Proof. vm_compute. reflexivity. Qed.
+
+(* what remains: "E=" directly followed by 70 characters is 72 columns wide; whatever
+   blank is put before the value makes the line wider *)
+Definition w72_e : parts := mkParts [] [69;61]%N [] (repeat 118%N 70) [] [].
+Definition w72_para : list parts := [w72_long; w72_e].
+Definition w72_after : list parts := [w72_long; set_sbv w72_e [9; 9]%N].
 
 Lemma w72_run : realign_lines w72_para = Ok w72_after.
 Proof. vm_compute. reflexivity. Qed.
-Lemma w72_widths : line_width w72_a = 68 /\ line_width (set_sbv w72_a [9; 9]%N) = 76.
+Lemma w72_widths : line_width w72_e = 72 /\ line_width (set_sbv w72_e [9; 9]%N) = 86.
 Proof. split; vm_compute; reflexivity. Qed.
 Lemma w72_ok : Forall single_ok w72_para.
 Proof. repeat constructor. Qed.
@@ -65,20 +71,3 @@ Proof.
   destruct w72_widths as [A B]. rewrite A, B in H3. specialize (H3 ltac:(discriminate)).
   apply H3. reflexivity.
 Qed.
-
-(* the guard of the partial theorem is not vacuous, and it fails for the witness *)
-Lemma w72_guard_fails : ~ not_shifted (optimalWidth w72_para) w72_a.
-Proof.
-  intros [G _]. assert (E : optimalWidth w72_para = 16) by (vm_compute; reflexivity).
-  assert (E0 : w0 w72_a = 2) by (vm_compute; reflexivity).
-  assert (E1 : valueColumn w72_a = 8) by (vm_compute; reflexivity).
-  rewrite E, E0, E1 in G. specialize (G ltac:(reflexivity)). apply G. reflexivity.
-Qed.
-Lemma w72_guard_holds : not_shifted (optimalWidth w72_para) w72_long.
-Proof.
-  assert (E : optimalWidth w72_para = 16) by (vm_compute; reflexivity).
-  assert (E0 : w0 w72_long = 15) by (vm_compute; reflexivity).
-  assert (E1 : valueColumn w72_long = 16) by (vm_compute; reflexivity).
-  split; rewrite E, E0; [rewrite E1; intros _ Hc; discriminate|intro Hc; exfalso; apply Hc; reflexivity].
-Qed.
-
